@@ -1,9 +1,9 @@
 SPECIFICATION Spec
-CONSTANTS MaxLinks = 2
- Lens = {1,2,4}
+CONSTANTS MaxLinks = 3
+ Lens = {1,4}
  Chunk = 4
  Read = 2
- Shapes = {1,3,6,10,14,15}
+ Shapes = {1,6,14,15}
  Damage = 0
  Clamp = TRUE
  Trim = TRUE
